@@ -31,7 +31,7 @@ for i, (name, ref, file, old, new) in enumerate(spec["COMBOS"]):
         if b.returncode != 0:
             print(f"{name}: DOES NOT COMPILE {b.stderr[-300:]}"); continue
         os.makedirs(out, exist_ok=True)
-        open(f"{out}/patch.diff", "w").write(sh("git diff", cwd=wt).stdout)
+        open(f"{out}/patch.diff", "w").write(sh("git add -A && git diff --cached", cwd=wt).stdout)
     finally:
         sh(f"git -C /repo worktree remove --force {wt}")
     r = sh(f"/verif/tools/eval_seed.sh {out}")
